@@ -51,6 +51,34 @@ func (m *MonC14) OnReq(w *World, r *Req) {
 		m.content = map[string]string{}
 	}
 	k := r.Key().String()
+	if r.Verb == "create" && r.After != nil && r.Pass != nil {
+		// names are determined by content: the same content is not stored a second time under
+		// another name while the first slice of the same deployment is still there
+		c := fmt.Sprint(r.After["objects"])
+		for _, ok := range sortedKeys(w.Mgmt.Objs) {
+			if ok.Group != PKOGroup || !isSliceKind(ok.Kind) || ok.Namespace != r.NS || ok == r.Key() {
+				continue
+			}
+			other := w.Mgmt.Objs[ok]
+			if store.Deleting(other) || fmt.Sprint(other["objects"]) != c {
+				continue
+			}
+			same := false
+			for _, a := range Controllers(other, "native") {
+				for _, b := range Controllers(r.After, "native") {
+					if a.UID == b.UID {
+						same = true
+					}
+				}
+			}
+			if same {
+				m.touch()
+				w.Report(Violation{Property: "C14", Rule: "content-renamed", Sig: shortSite(r.Site), Seq: r.Seq,
+					Msg: fmt.Sprintf("%s created slice %s with exactly the content of the existing slice %s of the same deployment: slice names are determined by content", r.Actor, r.Key(), ok)})
+				return
+			}
+		}
+	}
 	switch {
 	case r.After != nil && r.Changed:
 		c := fmt.Sprint(r.After["objects"])
